@@ -5,6 +5,17 @@ Each routine's master theorem has the form `run = .ok value c'`, which excludes 
 kind of the model (`oobRead`, `misaligned`, `ptrOob`, `overflow`, `debugAssert`, `panic`);
 this file collects those corollaries, the exactness of the one documented panic, and the
 adaptive prefilter state machine (where defect F1 was found and fixed).
+
+The documented panic (`packedpair_find_panics_iff`, `packedpair_prefilter_panics_iff` and the
+instances `DocumentedPanicExact`): a packed-pair finder panics exactly when the haystack is
+shorter than `min_haystack_len`, at its `assert!`, and nowhere else.
+
+The last sections cover Two-Way (forward with any sound - or merely total - prefilter in any
+prefilter state, reverse; all the `i - critical_pos + 1`, `pos - nlen + i - 1` index arithmetic
+and slice indexing), and the substring API built on it: the meta searcher, `memmem::find` /
+`rfind`, `Finder` / `FinderRev` under any operation sequence, and both iterators under any
+operation sequence.  The top-level byte-search functions and iterators are in C01, C02, C06, C07
+(each `= .ok ..` conclusion there is a no-fault statement).
 -/
 import MemchrModel.Proofs.Prefilter
 import MemchrModel.Proofs.MemchrGeneric
@@ -12,6 +23,12 @@ import MemchrModel.Proofs.IsEqual
 import MemchrModel.Proofs.RabinKarp
 import MemchrModel.Proofs.Pair
 import MemchrModel.Proofs.ShiftOr
+import MemchrModel.Proofs.Sensible
+import MemchrModel.Proofs.Neon
+import MemchrModel.Proofs.Swar
+import MemchrModel.Proofs.PairFallback
+import MemchrModel.Proofs.PackedPair
+import MemchrModel.Proofs.PropsBridge3
 
 namespace Memchr.Props.C14
 
@@ -49,6 +66,8 @@ theorem generic_find_no_fault (V : VecImpl) (L : Lawful V) (ns : Needles) (u : N
   let ⟨c', h⟩ := Generic.findRaw_correct V L ns u hu m start end_ c hs he hlen
   ⟨_, c', h⟩
 
+/-- generic vector `rfind_raw`: the same, for every lawful `V`, needle set, unroll factor, region
+and window of at least `V::BYTES` bytes -/
 theorem generic_rfind_no_fault (V : VecImpl) (L : Lawful V) (ns : Needles) (u : Nat) (hu : 0 < u)
     (m : Mem) (start end_ : Nat) (c : Ctr)
     (hs : m.base ≤ start) (he : end_ ≤ m.base + m.bytes.size) (hlen : start + V.bytes ≤ end_) :
@@ -56,6 +75,8 @@ theorem generic_rfind_no_fault (V : VecImpl) (L : Lawful V) (ns : Needles) (u : 
   let ⟨c', h⟩ := Generic.rfindRaw_correct V L ns u hu m start end_ c hs he hlen
   ⟨_, c', h⟩
 
+/-- generic vector `count_raw`: the same, for every lawful `V`, needle byte, unroll factor,
+region and window of at least `V::BYTES` bytes -/
 theorem generic_count_no_fault (V : VecImpl) (L : Lawful V) (n1 : UInt8) (u : Nat) (hu : 0 < u)
     (m : Mem) (start end_ : Nat) (c : Ctr)
     (hs : m.base ≤ start) (he : end_ ≤ m.base + m.bytes.size) (hlen : start + V.bytes ≤ end_) :
@@ -75,6 +96,315 @@ theorem pair_no_panic (needle : Slice) (rank : UInt8 → UInt8) (c : Ctr) :
   let ⟨r, c', hr, _⟩ := Pair.withRanker_correct needle rank c
   ⟨r, c', hr⟩
 
+/-- Rabin-Karp reverse never faults either, for an arbitrary `FinderRev`, every valid haystack
+and needle. -/
+theorem rabinkarp_rfind_no_fault (f : RabinKarp.FinderRev) (h n : Slice) (c : Ctr) (hh : h.Valid)
+    (hn : n.Valid) :
+    ∃ r c', f.rfind h n c = .ok r c' :=
+  let ⟨r, c', hr, _⟩ := RabinKarp.rfind_reads_ok f h n c hh hn
+  ⟨r, c', hr⟩
+
+/-! ### the documented panic of the packed-pair finders -/
+
+/-- THE DOCUMENTED PANIC IS EXACT (`find`). For every lawful vector type `V`, EVERY finder value
+with distinct indices whose `min_haystack_len` covers both vector loads (`FinderOk`, which every
+finder built by `Finder::new` from distinct in-range indices satisfies), every valid haystack,
+every valid search needle (the construction needle or any other) and every counter state:
+`find` ends in the panic of its `assert!(haystack.len() >= self.min_haystack_len)` if and only
+if the haystack is shorter than `min_haystack_len` - neither missing nor spurious. -/
+theorem packedpair_find_panics_iff (V : VecImpl) (L : Lawful V) (f : PackedPair.Finder)
+    (hok : PackedPair.FinderOk V f) (hay needle : Slice) (hh : hay.Valid) (hn : needle.Valid)
+    (c : Ctr) :
+    PackedPair.find V f hay needle c = .fault (.panic "packedpair::find: haystack too small") ↔
+      hay.len < f.minHaystackLen :=
+  PackedPair.find_panics_iff L f hok hay needle hh hn c
+
+/-- THE DOCUMENTED PANIC IS EXACT (`find_prefilter`). Same quantification (no needle): the panic
+of the `assert!` happens iff `haystack.len() < min_haystack_len`, and on every haystack of at
+least `min_haystack_len` bytes the call returns normally (no fault of any kind). -/
+theorem packedpair_prefilter_panics_iff (V : VecImpl) (L : Lawful V) (f : PackedPair.Finder)
+    (hok : PackedPair.FinderOk V f) (hay : Slice) (hh : hay.Valid) (c : Ctr) :
+    (PackedPair.findPrefilter V f hay c =
+        .fault (.panic "packedpair::find_prefilter: haystack too small") ↔
+      hay.len < f.minHaystackLen) ∧
+    (f.minHaystackLen ≤ hay.len → ∃ r c', PackedPair.findPrefilter V f hay c = .ok r c') :=
+  PackedPair.findPrefilter_panics_iff L f hok hay hh c
+
+/-- `find` with the construction needle, both sides of `min_haystack_len`, for every lawful `V`,
+valid haystack and needle and finder built by `Finder::new(needle, Pair{i1, i2})` with distinct
+in-range offsets: either the haystack is too short and the call panics at the `assert!`, or it
+is long enough and the call returns normally. Nothing else can happen. -/
+theorem packedpair_find_panics_or_ok (V : VecImpl) (L : Lawful V) (hay needle : Slice)
+    (hh : hay.Valid) (hn : needle.Valid) (i1 i2 : Nat) (hne : i1 ≠ i2) (h1 : i1 < needle.len)
+    (h2 : i2 < needle.len) (f : PackedPair.Finder) (c0 c0' : Ctr)
+    (hf : PackedPair.Finder.new V needle i1 i2 c0 = .ok f c0') (c : Ctr) :
+    (hay.len < f.minHaystackLen ∧
+      PackedPair.find V f hay needle c =
+        .fault (.panic "packedpair::find: haystack too small")) ∨
+    (f.minHaystackLen ≤ hay.len ∧ ∃ r c', PackedPair.find V f hay needle c = .ok r c') :=
+  PackedPair.find_panics_or_ok L hay needle hh hn i1 i2 hne h1 h2 f c0 c0' hf c
+
+/-- `find` with a FOREIGN search needle that is not longer than the haystack, on a haystack of
+at least `min_haystack_len` bytes (every lawful `V`, every `FinderOk` finder): returns normally
+- no debug assertion (the `overlap < V::BYTES` assertion that defect O3 reached is
+unreachable since the fix), no overflow, no pointer fault - with the lowest scanned offset where
+the pair matches and the search needle occurs, within the cost bound. (For a search needle
+LONGER than the haystack see C05 `packedpair_find_ptrOob_iff`, observation O2.) -/
+theorem packedpair_find_foreign_no_fault (V : VecImpl) (L : Lawful V) (f : PackedPair.Finder)
+    (hok : PackedPair.FinderOk V f) (hay needle : Slice) (hh : hay.Valid) (hn : needle.Valid)
+    (hlen : f.minHaystackLen ≤ hay.len) (hnl : needle.len ≤ hay.len) (c : Ctr) :
+    ∃ r c', PackedPair.find V f hay needle c = .ok r c' ∧ PackedPair.FindRes' V f hay needle r ∧
+      c'.steps ≤ c.steps + PackedPair.findCost V f hay needle :=
+  PackedPair.find_foreign_no_fault L f hok hay needle hh hn hlen hnl c
+
+/-- The exactness of the documented panic for one concrete vector type `V`: for every `FinderOk`
+finder, valid haystack, valid search needle and counter, `find` panics at its `assert!` iff the
+haystack is shorter than `min_haystack_len`, `find_prefilter` panics at its `assert!` iff the
+haystack is shorter than `min_haystack_len`, and otherwise `find_prefilter` returns normally. -/
+def DocumentedPanicExact (V : VecImpl) : Prop :=
+  ∀ (f : PackedPair.Finder) (hay needle : Slice) (c : Ctr), PackedPair.FinderOk V f →
+    hay.Valid → needle.Valid →
+    (PackedPair.find V f hay needle c = .fault (.panic "packedpair::find: haystack too small") ↔
+      hay.len < f.minHaystackLen) ∧
+    (PackedPair.findPrefilter V f hay c =
+        .fault (.panic "packedpair::find_prefilter: haystack too small") ↔
+      hay.len < f.minHaystackLen) ∧
+    (f.minHaystackLen ≤ hay.len → ∃ r c', PackedPair.findPrefilter V f hay c = .ok r c')
+
+/-- `DocumentedPanicExact` holds for every lawful vector type. -/
+theorem packedpair_documented_panic_exact (V : VecImpl) (L : Lawful V) : DocumentedPanicExact V :=
+  fun f hay needle c hok hh hn =>
+    ⟨packedpair_find_panics_iff V L f hok hay needle hh hn c,
+     packedpair_prefilter_panics_iff V L f hok hay hh c⟩
+
+/-- SSE2 packed-pair finder: the documented panic is exact. -/
+theorem packedpair_documented_panic_exact_sse2 : DocumentedPanicExact Sensible.sse2 :=
+  packedpair_documented_panic_exact Sensible.sse2 Sensible.lawful_sse2
+
+/-- AVX2 packed-pair finder: the documented panic is exact. -/
+theorem packedpair_documented_panic_exact_avx2 : DocumentedPanicExact Sensible.avx2 :=
+  packedpair_documented_panic_exact Sensible.avx2 Sensible.lawful_avx2
+
+/-- NEON packed-pair finder: the documented panic is exact. -/
+theorem packedpair_documented_panic_exact_neon : DocumentedPanicExact Neon.impl :=
+  packedpair_documented_panic_exact Neon.impl Neon.lawful
+
+/-- simd128 packed-pair finder: the documented panic is exact. -/
+theorem packedpair_documented_panic_exact_simd128 : DocumentedPanicExact Sensible.simd128 :=
+  packedpair_documented_panic_exact Sensible.simd128 Sensible.lawful_simd128
+
+/-- hypotheses are satisfiable on BOTH sides of `min_haystack_len` (4-lane checked vector type,
+finder for "abcdefgh" with the pair `(0, 1)`, `min_haystack_len = 8`): the 40-byte haystack is
+long enough, the 1-byte slice "z" used as a haystack is too short; "z" is also a foreign search
+needle not longer than the haystack -/
+example : PackedPair.FinderOk Sensible.small4 (PackedPair.mkFinder Sensible.small4 PackedPair.exNeedle 0 1) ∧
+    PackedPair.exHay.Valid ∧ PackedPair.exForeign.Valid ∧
+    (PackedPair.mkFinder Sensible.small4 PackedPair.exNeedle 0 1).minHaystackLen ≤ PackedPair.exHay.len ∧
+    PackedPair.exForeign.len < (PackedPair.mkFinder Sensible.small4 PackedPair.exNeedle 0 1).minHaystackLen ∧
+    PackedPair.exForeign.len ≤ PackedPair.exHay.len :=
+  ⟨PackedPair.mkFinder_ok _ 0 1 (by decide), by unfold Slice.Valid; decide,
+   by unfold Slice.Valid; decide, by decide, by decide, by decide⟩
+
+/-! ### SWAR, Shift-Or, portable prefilter -/
+
+/-- Portable SWAR `One::{find_raw, rfind_raw, count_raw}` and `Two`/`Three::{find_raw,
+rfind_raw}` (`ns = ⟨s1, [s2]⟩` resp. `⟨s1, [s2, s3]⟩`; any number of needle bytes) for EVERY
+needle, region and pair `start`, `end` (the window must lie in the region only when it is
+non-empty): none of the `debug_assert!`s on pointer order and residual length fires, no `usize`
+subtraction overflows, no pointer leaves the allocation. -/
+theorem swar_no_fault (n1 : UInt8) (ns : Needles) (m : Mem) (start end_ : Nat) (c : Ctr)
+    (hb : start < end_ → m.base ≤ start ∧ end_ ≤ m.base + m.bytes.size) :
+    (∃ v c', Swar.One.findRaw n1 m start end_ c = .ok v c') ∧
+    (∃ v c', Swar.One.rfindRaw n1 m start end_ c = .ok v c') ∧
+    (∃ v c', Swar.One.countRaw n1 m start end_ c = .ok v c') ∧
+    (∃ v c', Swar.Multi.findRaw ns m start end_ c = .ok v c') ∧
+    (∃ v c', Swar.Multi.rfindRaw ns m start end_ c = .ok v c') :=
+  ⟨let ⟨c', h⟩ := Swar.One.findRaw_correct n1 m start end_ c hb; ⟨_, c', h⟩,
+   let ⟨c', h⟩ := Swar.One.rfindRaw_correct n1 m start end_ c hb; ⟨_, c', h⟩,
+   let ⟨c', h⟩ := Swar.One.countRaw_correct n1 m start end_ c hb; ⟨_, c', h⟩,
+   let ⟨c', h⟩ := Swar.Multi.findRaw_correct ns m start end_ c hb; ⟨_, c', h⟩,
+   let ⟨c', h⟩ := Swar.Multi.rfindRaw_correct ns m start end_ c hb; ⟨_, c', h⟩⟩
+
+/-- hypothesis of `swar_no_fault` is satisfiable with a non-empty unaligned window -/
+example : ∃ (m : Mem) (start end_ : Nat), start < end_ ∧
+    (start < end_ → m.base ≤ start ∧ end_ ≤ m.base + m.bytes.size) :=
+  ⟨⟨0, 3, Array.replicate 20 7⟩, 4, 22, by decide, fun _ => ⟨by decide, by simp⟩⟩
+
+/-- Shift-Or `Finder::new` for EVERY needle slice (any length): returns normally (for a needle
+of more than 15 bytes with `None`; otherwise `1 << i` is never shifted by 16 or more). -/
+theorem shiftor_new_no_fault (needle : Slice) (c : Ctr) :
+    ∃ r, ShiftOr.Finder.new needle c = .ok r c ∧ (r = none ↔ needle.len > 15) :=
+  let ⟨r, h, hnone, _⟩ := ShiftOr.Finder.new_correct needle c
+  ⟨r, h, hnone⟩
+
+/-- Shift-Or `find` for every valid needle of at most 15 bytes and every valid haystack: the
+finder is built and `find` returns normally (`1 << needle_len` does not overflow the `u16`
+mask, `i + 1 - needle_len` does not underflow). -/
+theorem shiftor_find_no_fault (needle hay : Slice) (hvn : needle.Valid) (hvh : hay.Valid)
+    (hlen : needle.len ≤ 15) (c : Ctr) :
+    ∃ f r c', ShiftOr.Finder.new needle c = .ok (some f) c ∧ f.find hay c = .ok r c' :=
+  let ⟨f, h1, h2⟩ := ShiftOr.shiftOr_correct needle hay hvn hvh hlen c
+  ⟨f, _, c, h1, h2⟩
+
+/-- Portable packed-pair `find_prefilter` for every `memchr` that is correct (`MemchrOk`,
+explicit hypothesis), EVERY finder value and every valid haystack of ANY length (there is no
+minimum): returns normally - `&haystack[i..]` never panics, `i.checked_sub(index1)` and
+`checked_add(index2)` are handled. -/
+theorem fallback_prefilter_no_fault {memchr : UInt8 → Slice → M (Option Nat)} {K : Nat}
+    (hm : Fallback.MemchrOk memchr K) (f : Fallback.Finder) (hay : Slice) (hv : hay.Valid)
+    (c : Ctr) :
+    ∃ r c', Fallback.findPrefilter memchr f hay c = .ok r c' :=
+  let ⟨r, c', h, _⟩ := Fallback.findPrefilter_correct hm f hay hv c
+  ⟨r, c', h⟩
+
+/-- Portable `packedpair::Finder::new` for EVERY needle slice: returns normally (the `u8`
+conversions and `needle[index]` cannot panic), `None` iff the needle has fewer than 2 bytes. -/
+theorem fallback_new_no_fault (needle : Slice) (c : Ctr) :
+    ∃ r c', Fallback.Finder.new needle c = .ok r c' ∧ (r = none ↔ needle.len < 2) :=
+  let ⟨r, c', h, hnone, _⟩ := Fallback.Finder.new_correct needle c
+  ⟨r, c', h, hnone⟩
+
+/-- hypotheses of the Shift-Or and portable prefilter theorems are satisfiable -/
+example : (Slice.ofMem ⟨1, 64, #[97, 98, 97]⟩).Valid ∧
+    (Slice.ofMem ⟨0, 4096, #[120, 97, 98, 97, 98, 97]⟩).Valid ∧
+    (Slice.ofMem ⟨1, 64, #[97, 98, 97]⟩).len ≤ 15 ∧ Fallback.MemchrOk Fallback.specMemchr 0 :=
+  ⟨Nat.le_of_eq (Nat.zero_add _), Nat.le_of_eq (Nat.zero_add _), by decide, Fallback.specMemchr_ok⟩
+
+/-! ### Two-Way (`src/arch/all/twoway.rs`) -/
+
+/-- **Two-Way forward never faults, with any sound prefilter, in any prefilter state.**
+`twoway::Finder::new(needle)` then `find_with_prefilter(pre, haystack, needle)` for every valid
+needle and haystack, every optional prefilter `pre` with strategy `strat` (`PreOK`) that is
+sound for the needle on the haystack (`TwoWay.PreSound`; hypothesis only when `pre` is `Some`)
+and EVERY `PrefilterState` inside `pre`: returns normally - no `usize` subtraction underflows,
+no slice index is out of range, the `u32` arithmetic of the adaptive state does not overflow
+(F1) - with some result `r` and the updated prefilter. (`Props/C03`: `r` is the leftmost
+occurrence.) -/
+theorem twoway_find_no_fault (needle haystack : Slice) (pre : Option Pre) (c : Ctr)
+    (strat : Slice → M (Option Nat)) (hnv : needle.Valid) (hhv : haystack.Valid)
+    (hpre : TwoWay.PreOK strat pre)
+    (hsound : pre ≠ none → TwoWay.PreSound needle haystack strat) :
+    ∃ r pre' c', (TwoWay.Finder.new needle >>= fun tw =>
+        TwoWay.Finder.findWithPrefilter tw pre haystack needle) c = .ok (r, pre') c' :=
+  let ⟨pre', c', h, _⟩ := TwoWay.find_correct needle haystack pre c strat hnv hhv hpre hsound
+  ⟨_, pre', c', h⟩
+
+/-- **Two-Way forward never faults even with an UNSOUND prefilter**: the same call with ANY
+optional prefilter whose strategy merely returns normally on the tails of the haystack (it may
+skip matches or report nonsense candidates): the run returns normally, and a reported `Some(q)`
+is a real occurrence of the needle. -/
+theorem twoway_find_no_fault_any_prefilter (needle haystack : Slice) (pre : Option Pre) (c : Ctr)
+    (strat : Slice → M (Option Nat)) (hnv : needle.Valid) (hhv : haystack.Valid)
+    (hpre : TwoWay.PreOK strat pre)
+    (htotal : pre ≠ none → ∀ a, a ≤ haystack.len → ∀ c, ∃ r c',
+      strat (TwoWay.tailFrom haystack a) c = .ok r c') :
+    ∃ r pre' c', (TwoWay.Finder.new needle >>= fun tw =>
+        TwoWay.Finder.findWithPrefilter tw pre haystack needle) c = .ok (r, pre') c' ∧
+      ∀ q, r = some q → Spec.OccAt haystack.toArray needle.toArray q :=
+  Bridge3.twoway_find_any_prefilter needle haystack pre c strat hnv hhv hpre htotal
+
+/-- **Two-Way reverse never faults**: `twoway::FinderRev::new(needle).rfind(haystack, needle)`
+for every valid needle and haystack returns normally. -/
+theorem twoway_rfind_no_fault (needle haystack : Slice) (c : Ctr) (hnv : needle.Valid)
+    (hhv : haystack.Valid) :
+    ∃ r c', (TwoWay.FinderRev.new needle >>= fun tw =>
+        TwoWay.FinderRev.rfind tw haystack needle) c = .ok r c' :=
+  let ⟨c', h, _⟩ := TwoWay.rfind_correct needle haystack c hnv hhv
+  ⟨_, c', h⟩
+
+/-- hypotheses are satisfiable: valid needle and haystack; no prefilter; the always-`Some(0)`
+strategy is sound and total for every needle and haystack -/
+example :
+    let needle := Slice.ofMem ⟨1, 4096, "abaab".toUTF8.data⟩
+    let haystack := Slice.ofMem ⟨0, 8192, "abaaabaabab".toUTF8.data⟩
+    needle.Valid ∧ haystack.Valid ∧ TwoWay.PreOK (fun _ => pure none) none ∧
+    TwoWay.PreSound needle haystack (fun _ => pure (some 0)) ∧
+    (∀ a, a ≤ haystack.len → ∀ c : Ctr, ∃ r c',
+      (fun _ => pure (some 0) : Slice → M (Option Nat)) (TwoWay.tailFrom haystack a) c =
+        .ok r c') :=
+  ⟨by unfold Slice.Valid; decide, by unfold Slice.Valid; decide, (fun p hp => by cases hp),
+   (fun a _ c => ⟨some 0, c, rfl, nofun, fun cnd h q _ => by cases h; exact Nat.zero_le _⟩),
+   (fun a _ c => ⟨some 0, c, rfl⟩)⟩
+
+/-! ### the substring API (`src/memmem/searcher.rs`, `src/memmem/mod.rs`) -/
+
+/-- **The meta searcher never faults**: for every configuration, prefilter setting, ranker,
+valid needle and haystack and EVERY prefilter state, `Searcher::new` returns normally (no
+`debug_assert`, no index panic in the pair / prefilter construction) and `Searcher::find`
+returns normally, whichever strategy was chosen. -/
+theorem searcher_find_no_fault (cfg : Api.Cfg) (pf : Memmem.PrefilterConfig)
+    (rank : UInt8 → UInt8) (needle hay : Slice) (hn : needle.Valid) (hh : hay.Valid)
+    (st : PrefilterState) (c : Ctr) :
+    ∃ s c1, Memmem.Searcher.new cfg pf rank needle c = .ok s c1 ∧ ∀ c2, ∃ r st' c3,
+      s.find cfg st hay needle c2 = .ok (r, st') c3 :=
+  let ⟨s, c1, h, hf⟩ := Memmem.C03.find_all cfg pf rank needle hay hn hh st c
+  ⟨s, c1, h, fun c2 => let ⟨st', c3, e⟩ := hf c2; ⟨_, st', c3, e⟩⟩
+
+/-- **The reverse meta searcher never faults**: `SearcherRev::new(needle)` and
+`rfind(haystack, needle)` return normally for every configuration, valid needle and haystack. -/
+theorem searcher_rfind_no_fault (cfg : Api.Cfg) (needle hay : Slice) (hn : needle.Valid)
+    (hh : hay.Valid) (c : Ctr) :
+    ∃ s c1, Memmem.SearcherRev.new needle c = .ok s c1 ∧ ∀ c2, ∃ r c3,
+      s.rfind cfg hay needle c2 = .ok r c3 :=
+  let ⟨s, c1, h, hf⟩ := Memmem.C04.rfind_all cfg needle hay hn hh c
+  ⟨s, c1, h, fun c2 => let ⟨c3, e⟩ := hf c2; ⟨_, c3, e⟩⟩
+
+/-- **`memmem::find` and `memmem::rfind` return normally** for every configuration and every
+valid needle and haystack. -/
+theorem memmem_no_fault (cfg : Api.Cfg) (needle hay : Slice) (hn : needle.Valid) (hh : hay.Valid)
+    (c : Ctr) :
+    (∃ r c', Memmem.find cfg hay needle c = .ok r c') ∧
+    (∃ r c', Memmem.rfind cfg hay needle c = .ok r c') :=
+  ⟨let ⟨c', h⟩ := Memmem.C03.oneshot_all cfg needle hay hn hh c; ⟨_, c', h⟩,
+   let ⟨c', h⟩ := Memmem.C04.oneshot_all cfg needle hay hn hh c; ⟨_, c', h⟩⟩
+
+/-- **Every `Finder` method returns normally, in any order**: a `FinderBuilder` finder (any
+configuration, prefilter setting, ranker, valid needle) under EVERY list of operations `find`
+(valid haystacks), `needle`, `as_ref`, `clone`, `into_owned`. -/
+theorem finder_ops_no_fault (cfg : Api.Cfg) (b : Memmem.FinderBuilder) (rank : UInt8 → UInt8)
+    (needle : Slice) (hn : needle.Valid) (ops : List Memmem.FinderOp)
+    (hops : ∀ op ∈ ops, op.Ok) (h : Memmem.Heap) (c : Ctr) :
+    ∃ r c', (b.buildForwardWithRanker cfg rank needle >>= fun f =>
+      Memmem.Finder.run cfg ops f h) c = .ok r c' :=
+  let ⟨_, _, c', e, _⟩ := Memmem.C16.finder_run_all cfg b rank needle hn ops hops h c
+  ⟨_, c', e⟩
+
+/-- **Every `FinderRev` method returns normally, in any order** (`find` = `rfind`). -/
+theorem finder_rev_ops_no_fault (cfg : Api.Cfg) (needle : Slice) (hn : needle.Valid)
+    (ops : List Memmem.FinderOp) (hops : ∀ op ∈ ops, op.Ok) (h : Memmem.Heap) (c : Ctr) :
+    ∃ r c', (Memmem.FinderRev.new needle >>= fun f => Memmem.FinderRev.run cfg ops f h) c =
+      .ok r c' :=
+  let ⟨_, _, c', e, _⟩ := Bridge3.finderRev_run_all cfg needle hn ops hops h c
+  ⟨_, c', e⟩
+
+/-- **`find_iter` returns normally under every operation sequence**: `next`, `size_hint`,
+`clone`, `into_owned` in any order and number (also long after exhaustion; `pos + idx` and
+`pos + max(needle.len(), 1)` do not overflow, `haystack.get(pos..)` handles `pos > len`). -/
+theorem find_iter_ops_no_fault (cfg : Api.Cfg) (b : Memmem.FinderBuilder) (rank : UInt8 → UInt8)
+    (needle hay : Slice) (hn : needle.Valid) (hh : hay.Valid) (ops : List Memmem.IterOp)
+    (h : Memmem.Heap) (c : Ctr) :
+    ∃ r c', (b.buildForwardWithRanker cfg rank needle >>= fun f =>
+      Memmem.FindIter.run cfg ops (f.findIter hay) h) c = .ok r c' :=
+  let ⟨_, _, c', e, _⟩ := Bridge3.findIter_run_all cfg b rank needle hay hn hh ops h c
+  ⟨_, c', e⟩
+
+/-- **`rfind_iter` returns normally under every operation sequence** (`&haystack[..pos]` never
+panics, `pos.checked_sub(1)` is handled). -/
+theorem rfind_iter_ops_no_fault (cfg : Api.Cfg) (needle hay : Slice) (hn : needle.Valid)
+    (hh : hay.Valid) (ops : List Memmem.IterOp) (h : Memmem.Heap) (c : Ctr) :
+    ∃ r c', (Memmem.FinderRev.new needle >>= fun f =>
+      Memmem.FindRevIter.run cfg ops (f.rfindIter hay) h) c = .ok r c' :=
+  let ⟨_, _, c', e, _⟩ := Bridge3.rfindIter_run_all cfg needle hay hn hh ops h c
+  ⟨_, c', e⟩
+
+/-- hypotheses of the substring API theorems are satisfiable: a 40-byte needle (a Two-Way
+branch) and a 100-byte haystack are valid slices; a `find` operation on a valid haystack is
+`Ok` -/
+example : (Slice.ofMem ⟨1, 64, Array.replicate 40 97⟩).Valid ∧
+    (Slice.ofMem ⟨0, 4096, Array.replicate 100 97⟩).Valid ∧
+    Memmem.FinderOp.Ok (.find (Slice.ofMem ⟨0, 4096, Array.replicate 100 97⟩)) := by
+  simp [Slice.Valid, Slice.ofMem, Memmem.FinderOp.Ok]
+
 end Memchr.Props.C14
 
 #print axioms Memchr.Props.C14.is_effective_total
@@ -85,3 +415,28 @@ end Memchr.Props.C14
 #print axioms Memchr.Props.C14.generic_count_no_fault
 #print axioms Memchr.Props.C14.rabinkarp_no_fault
 #print axioms Memchr.Props.C14.pair_no_panic
+#print axioms Memchr.Props.C14.rabinkarp_rfind_no_fault
+#print axioms Memchr.Props.C14.packedpair_find_panics_iff
+#print axioms Memchr.Props.C14.packedpair_prefilter_panics_iff
+#print axioms Memchr.Props.C14.packedpair_find_panics_or_ok
+#print axioms Memchr.Props.C14.packedpair_find_foreign_no_fault
+#print axioms Memchr.Props.C14.packedpair_documented_panic_exact
+#print axioms Memchr.Props.C14.packedpair_documented_panic_exact_sse2
+#print axioms Memchr.Props.C14.packedpair_documented_panic_exact_avx2
+#print axioms Memchr.Props.C14.packedpair_documented_panic_exact_neon
+#print axioms Memchr.Props.C14.packedpair_documented_panic_exact_simd128
+#print axioms Memchr.Props.C14.swar_no_fault
+#print axioms Memchr.Props.C14.shiftor_new_no_fault
+#print axioms Memchr.Props.C14.shiftor_find_no_fault
+#print axioms Memchr.Props.C14.fallback_prefilter_no_fault
+#print axioms Memchr.Props.C14.fallback_new_no_fault
+#print axioms Memchr.Props.C14.twoway_find_no_fault
+#print axioms Memchr.Props.C14.twoway_find_no_fault_any_prefilter
+#print axioms Memchr.Props.C14.twoway_rfind_no_fault
+#print axioms Memchr.Props.C14.searcher_find_no_fault
+#print axioms Memchr.Props.C14.searcher_rfind_no_fault
+#print axioms Memchr.Props.C14.memmem_no_fault
+#print axioms Memchr.Props.C14.finder_ops_no_fault
+#print axioms Memchr.Props.C14.finder_rev_ops_no_fault
+#print axioms Memchr.Props.C14.find_iter_ops_no_fault
+#print axioms Memchr.Props.C14.rfind_iter_ops_no_fault
